@@ -1211,7 +1211,7 @@ def run():
         # ---- the real servers
         nsrv = 1 if replay else (6 if thorough else 4)
         budget = {"p2": None, "pairs": 150} if thorough else {"p2": None, "pairs": 6}
-        span = (15 * 60) if thorough else 45
+        span = (12 * 60) if thorough else 45
         fxs = []
 
         def boot(i):
